@@ -126,6 +126,9 @@ func genC12(seed uint64, tier string) *plan.Plan {
 				pl.Cfg["silent_client"] = int64(op.T + 1)
 				pl.Cfg["silent_after"] = int64(r2.IntN(int(op.B) - 1))
 				pl.Cfg["silent_s"] = []int64{1800, 1801, 1900, 3600, 7000}[r2.IntN(5)]
+				if r2.IntN(3) == 0 {
+					pl.Cfg["silent_exact"] = 1
+				}
 				if r2.IntN(3) > 0 {
 					pl.Cfg["stop_ms"] = 0 // Stop after every client has finished (else: wherever it was placed, e.g. inside the silence)
 				}
@@ -363,7 +366,13 @@ func runC12(pl *plan.Plan, out *plan.Outcome) {
 					// this exporter falls silent for longer than the collector keeps a UDP peer's handler
 					// (1800 s), then goes on from the same address
 					env.Count("fault.udp_peer_silent_beyond_handler_timeout", 1)
-					env.Sleep(time.Duration(cfgOr(pl, "silent_s", 1900)) * time.Second)
+					d := time.Duration(cfgOr(pl, "silent_s", 1900)) * time.Second
+					if cfgOr(pl, "silent_exact", 0) == 1 {
+						// ... or until the very instant the handler gives up (1800 s after this client's last
+						// datagram): the next datagram and the handler's timeout meet, the scheduler orders them
+						d = 1800*time.Second - time.Duration(op.D)*time.Microsecond
+					}
+					env.Sleep(d)
 				}
 			}
 			if op.S == "stay" {
